@@ -202,7 +202,7 @@ Definition c03_witness : node :=
 
 Lemma c03_witness_facts :
   reduce_model c03_witness = c03_witness /\ ws_indent [SP; SP] = true /\
-  preserved_newline false c03_witness = true /\
+  verbatim_newline false c03_witness = true /\
   reduce_model (wrap_seen [SP; SP] false 5%Z c03_witness []) <> c03_witness.
 Proof. vm_compute. repeat split. discriminate. Qed.
 
@@ -213,10 +213,18 @@ Proof.
   split; [exact H1|]. split; [exact H2|]. split; [reflexivity|exact H4].
 Qed.
 
+(* the same coincidence after a comment that contains a newline: <r><a><!--x(LF)y-->bb</a></r>, indentation two spaces *)
+Definition c03_witness_comment : node :=
+  Tag [] [114%N] [] [Tag [] [97%N] [] [Comment [120; 10; 121]%N; Text [98; 98]%N]].
+Lemma c03_witness_comment_facts :
+  reduce_model c03_witness_comment = c03_witness_comment /\ verbatim_newline false c03_witness_comment = true /\
+  reduce_model (wrap_seen [SP; SP] false 5%Z c03_witness_comment []) <> c03_witness_comment.
+Proof. vm_compute. repeat split. discriminate. Qed.
+
 (* the same options leave a tree outside the class of the finding intact (non-vacuity of the guard) *)
 Example wrapped_ok_example :
   let t := Tag [] [114%N] [] [Text [97; 97; 32; 98; 98; 32]%N; Tag [] [105%N] [] [Text [99; 99]%N]; Text [32; 100; 100; 32; 101; 101]%N] in
-  reduce_model t = t /\ preserved_newline false t = false /\
+  reduce_model t = t /\ verbatim_newline false t = false /\
   wrap_str [SP; SP] false 5%Z t [] <> render (plain t) /\
   reduce_model (wrap_seen [SP; SP] false 5%Z t []) = t.
 Proof. vm_compute. repeat split. discriminate. Qed.
